@@ -18,7 +18,9 @@ PP(k, m, v, c, id, st, vals) == [kind |-> k, model |-> m, vtype |-> v, cost |-> 
                                  vals |-> vals]
 Uniform(k, n, c) == [s \in 1..n |-> [j \in 1..NV(k) |-> c]]
 DefPP(km, id)    == PP(km[1], km[2], 2, "JB1", id, <<0, 1>>, Uniform(km[1], 2, "ord"))
-Sol(pps, ct, date, proc, scen) == [pps |-> pps, ct |-> ct, date |-> date, proc |-> proc, scen |-> scen]
+SolR(pps, ct, date, proc, scen, route) == [pps |-> pps, ct |-> ct, date |-> date, proc |-> proc, scen |-> scen,
+                                           route |-> route]
+Sol(pps, ct, date, proc, scen) == SolR(pps, ct, date, proc, scen, "writer")
 DefSol(pps) == Sol(pps, "ord", "plain", "plain", "T")
 
 (* model / input kind x vehicle type x admissible cost *)
@@ -51,12 +53,26 @@ CMetaVal == {Sol(KS1, c, "plain", "plain", "T") : c \in CtClasses}
             \cup {Sol(KS1, t[1], t[2], t[3], "T") : t \in {"None", "tiny9"} \X {"None", "micro"} \X ProcTokens}
             \cup {Sol(<<DefPP(km, 7)>>, "ord", "plain", p, "T") : km \in KindModels, p \in {"tm", "xml", "unicode"}}
             \cup {Sol(KS1, "ord", "plain", "plain", sc) : sc \in ScenTokens}
+(* state order: ascending, one adjacent swap, rotation keeping the first state, gaps, gaps + swap, smallest time *)
+(* step not first, descending; the states carry different value classes so that a state losing its values shows; *)
+(* both routes; single solutions of every kind and cooperative pairs                                             *)
+OrderPatterns == {<<3, 4, 5, 6>>, <<3, 5, 4, 6>>, <<0, 2, 1>>, <<3, 5, 6, 4>>, <<0, 2, 7>>, <<0, 7, 2>>, <<2, 0, 1>>,
+                  <<5, 3, 4>>, <<2, 1, 0>>, <<1, 0>>}
+CoopOrderPatterns == {<<3, 4, 5, 6>>, <<3, 5, 4, 6>>, <<2, 0, 1>>, <<0, 7, 2>>}
+StateClass == <<"ord", "neg", "intf", "tiny">>
+PerState(k, n) == [s \in 1..n |-> [j \in 1..NV(k) |-> StateClass[s]]]
+OPP(km, id, st) == PP(km[1], km[2], 2, "JB1", id, st, PerState(km[1], Len(st)))
+COrder == {SolR(<<OPP(t[1], 7, t[2])>>, "ord", "plain", "plain", "T", t[3]) :
+             t \in KindModels \X OrderPatterns \X Routes}
+CoopKinds == {<<"PM", "PM">>, <<"KS", "KS">>, <<"Input", "ST">>}
+COrderCoop == {SolR(<<OPP(t[1], 20, t[3]), OPP(t[2], 10, t[4])>>, "ord", "plain", "plain", "T", t[5]) :
+                 t \in CoopKinds \X CoopKinds \X CoopOrderPatterns \X CoopOrderPatterns \X Routes}
 (* cooperative: every sequence of 2..MaxCoop kinds (in and out of schema order, kinds may repeat), ids up and down *)
 IdPatterns(n) == IF n = 2 THEN {<<10, 20>>, <<20, 10>>} ELSE {[i \in 1..n |-> IF i = 1 THEN 30 ELSE 10 * (i - 1)]}
 CCoop  == UNION {{DefSol([i \in 1..n |-> DefPP(t[1][i], t[2][i])]) : t \in [1..n -> KindModels] \X IdPatterns(n)} :
                    n \in 2..MaxCoop}
 
-Cases == CKind \cup CSteps \cup CVal1 \cup CValAll \cup CNumpy \cup CMeta \cup CMetaVal \cup CCoop
+Cases == CKind \cup CSteps \cup CVal1 \cup CValAll \cup CNumpy \cup CMeta \cup CMetaVal \cup CCoop \cup COrder \cup COrderCoop
 
 Init == sol \in Cases
 Next == UNCHANGED sol
